@@ -134,6 +134,23 @@ Theorem C13_heuristic_solve :
     /\ lev (es s1) = map (fun i => Some (nth i (sF lastS) 0%Q)) (seq 0 (S (length (lev (es s))))).
 Proof. exact heuristic_solve. Qed.
 
+(** The CVXPY problem of a dimension-reduction heuristic has the rows of that solve's original problem plus
+    exactly ONE (the bound [objective >= wc - tol]) over the same variables (F, G, one M per LMI) -- numbers that
+    depend on the declared model only, at every solve index and in every history ... *)
+Theorem C13_heuristic_rows :
+  forall s a, closed s ->
+    let l := sent_at (solve s a) in
+    cvx_heuristic_rows l = S (cvx_rows l)
+    /\ cvx_rows l = cvx_rows (sent_of (decl_of s) 0) /\ cvx_vars l = cvx_vars (sent_of (decl_of s) 0).
+Proof. exact heuristic_rows. Qed.
+
+(** ... hence they do not grow with the number of (heuristic or plain, finite or failed) solves. *)
+Theorem C13_heuristic_rows_no_growth :
+  forall s ops a a', inv s -> forallb (fun o => negb (editing o)) ops = true ->
+    let k := sent_at (solve (fst (run s ops)) a') in let k1 := sent_at (solve s a) in
+    cvx_heuristic_rows k = cvx_heuristic_rows k1 /\ cvx_rows k = cvx_rows k1 /\ cvx_vars k = cvx_vars k1.
+Proof. exact heuristic_rows_no_growth. Qed.
+
 (** F-C13a: a held object whose cache dates from solve 1 keeps that number after solve 2, while a
     new object with the SAME dictionary evaluates to solution 2. *)
 Theorem C13_refuted_stale :
@@ -194,6 +211,8 @@ Print Assumptions C13_fresh_new_object.
 Print Assumptions C13_duals_latest.
 Print Assumptions C13_own_items_all_sent.
 Print Assumptions C13_heuristic_solve.
+Print Assumptions C13_heuristic_rows.
+Print Assumptions C13_heuristic_rows_no_growth.
 Print Assumptions C13_refuted_stale.
 Print Assumptions C13_failed_solve_keeps_leaves.
 Print Assumptions C13_refuted_failed.
